@@ -3,15 +3,17 @@
 
 use crate::kernel::report::{Ctx, PropertyMeta, Stats, Tier};
 
+pub mod entropy;
 pub mod gamma;
 pub mod memo;
 pub mod stream;
 pub mod wire04;
+pub mod wire06;
 pub mod wire07;
 
-pub const CLAIMED: [&str; 6] = ["C01", "C03", "C04", "C05", "C07", "C09"];
+pub const CLAIMED: [&str; 8] = ["C01", "C03", "C04", "C05", "C06", "C07", "C09", "C20"];
 
-static META: [PropertyMeta; 6] = [
+static META: [PropertyMeta; 8] = [
     PropertyMeta {
         id: "C01",
         level: "exploration",
@@ -69,6 +71,21 @@ static META: [PropertyMeta; 6] = [
         stub_components: &["none: the scheduler only decides the order of API calls and which memo they share"],
     },
     PropertyMeta {
+        id: "C06",
+        level: "exploration",
+        engine: "wire-sim (hostile mode)",
+        rule: "a run = one delivery: (a) an honest in-flight message (corpus value or generated typed-untyped value, half of the generated types with labels a .did author may legally quote: commas, quotes, empty, non-ASCII, numeric-looking) damaged by 0-3 channel faults (truncate, bit flip, boundary-byte substitution, span delete/duplicate, splice with another in-flight message, inflate a LEB128 length, insert bytes) or (b) a Byzantine construction (opt/vec chains up to depth 10000 with values nested up to 50000, self-referential records/variants, vectors of zero-sized elements with counts up to 2^63, table length 9999/10000/10001/2^32, argument/field counts 2^32, bad/unsorted/duplicate ids and method names, annotations, future opcodes with lengths up to 2^63, bad indices, LEB128 padding, lengths beyond the input, reference flags/lengths, bad tags); receiver = native corpus type, generated untyped types, from_bytes without type, or done() only; knobs per run: thread stack 64 KiB-8 MiB, decoding quota none/0/1-50/1000/100000, skipping quota likewise, max_type_len, full error messages on/off. distinct = distinct (receiver, message kind, outcome class, error prefix). non-trivial = the message is not an undamaged honest message.",
+        assumptions: &[
+            "a worker process that dies (SIGSEGV from stack overflow, SIGABRT from abort or a refused >2 GiB allocation) is identified by its journal and reported as a violation; a wall-clock watchdog backs this up",
+            "work is counted by the tick hook (element/entry loops of the decoder, deserialize_any, subtype_); with a decoding quota q: ticks <= 16 q + 64 len + 20000 and live heap <= 4e6 + 4096 len + 2048 q — constants at least 8x the largest ratios measured on the unchanged tree (recorded under measured_maxima), because the statement fixes no constants",
+            "without a decoding quota there is no work bound in the statement: reaching the tick cap is counted as inconclusive",
+            "allocation failure is not injected (it aborts, it does not unwind); only accounting and a single-request ceiling",
+            "debug profile by default (overflow checks and debug assertions on); SIM_PROFILE=release runs the same check on the release profile",
+        ],
+        real_components: &["candid::binary_parser (header, type table)", "candid::de (native and untyped)", "candid::types::subtype (from check_subtype)", "candid::types::value visitor", "stacker (real remaining stack on real small stacks)", "the system allocator behind a counting wrapper"],
+        stub_components: &["network: SimNet hostile channel (damage operators)", "sender: ByzantineSender (hand-rolled binary writer)", "thread stack size per run", "work counter / cap (verif-hooks)"],
+    },
+    PropertyMeta {
         id: "C07",
         level: "fault_enumeration",
         engine: "wire-sim (metered mode)",
@@ -93,6 +110,19 @@ static META: [PropertyMeta; 6] = [
         ],
         real_components: &["candid::Nat::{encode,decode}", "candid::Int::{encode,decode}", "candid::types::leb128::{encode_nat,encode_int,decode_nat,decode_int}", "candid::de (in-message paths)", "num-bigint", "leb128 crate"],
         stub_components: &["io::Read -> SimReader (short read, EINTR, EOF/error at offset)", "io::Write -> SimWriter (short write, EINTR, write-zero/error at offset)"],
+    },
+    PropertyMeta {
+        id: "C20",
+        level: "fault_enumeration",
+        engine: "entropy-sim",
+        rule: "a run = one generated environment (0-5 definitions, recursive, with planted hard cases: uninhabited `record {L}`, variant whose first case is recursive, rose tree; `empty` and `reserved` allowed), 1-3 requested types, one generator configuration drawn from a swarm (depth -1..30, size -5..1000, width 0..40, ranges incl. inverted and out-of-type ones, every text kind incl. an unknown one, per-path overrides incl. configured `value` lists that do or do not fit), and one entropy buffer of 0-256 bytes (random, all-00, all-FF, period 3); the fault 'entropy runs dry after k bytes' is enumerated over every prefix k = 0..n. Every returned argument list is judged by the harness's own typing judgement, annotate_type and to_bytes_with_types. distinct = distinct (requested type, size of the generated value). non-trivial = the generator returned values at least once.",
+        assumptions: &[
+            "termination is judged by 'returns' (wall-clock watchdog as backstop), not by a size formula",
+            "a configuration TOML the config parser rejects is counted, not judged",
+            "the environment / configuration space is sampled; per buffer the truncation points are swept completely",
+        ],
+        real_components: &["candid_parser::random (any, RandState)", "candid_parser::configs", "arbitrary::Unstructured", "IDLValue::annotate_type, IDLArgs::to_bytes_with_types", "fake / rand for text kinds"],
+        stub_components: &["entropy source: harness buffer with truncation at every prefix, stuck-at and periodic contents"],
     },
 ];
 
@@ -122,12 +152,20 @@ macro_rules! dispatch {
                 use gamma as $m;
                 $body
             }
+            "C06" => {
+                use wire06 as $m;
+                $body
+            }
             "C07" => {
                 use wire07 as $m;
                 $body
             }
             "C09" => {
                 use stream as $m;
+                $body
+            }
+            "C20" => {
+                use entropy as $m;
                 $body
             }
             _ => $default,
@@ -179,6 +217,13 @@ pub fn extra_evidence(prop: &str, tier: Tier, stats: &Stats) -> serde_json::Valu
                 "exhaustive_note": format!("{envs} of {} small environments had all two-query histories enumerated{}", gamma::small_env_count(), if tier == Tier::Thorough { " (thorough: every small environment)" } else { " (quick: seeded sample)" }),
                 "schedule_reached": "order of queries, which memo they share, memo retirement after failed queries",
                 "workload_only": "shapes of environments and query pairs",
+            })
+        }
+        "C20" => {
+            let bufs = stats.exhaustive_parts.get("buffers_with_every_prefix_run").copied().unwrap_or(0);
+            serde_json::json!({
+                "exhaustive": false,
+                "exhaustive_note": format!("{bufs} entropy buffers had every prefix 0..n run; the (environment, types, configuration) space is sampled"),
             })
         }
         "C07" => {
